@@ -100,7 +100,73 @@ def replay (cfg : CacheCfg) (max : Nat) (g f : String → String) :
     | some s' => replay cfg max g f s' ls (k + 1) (digest s' :: acc)
     | none => (s, some k, acc.reverse)
 
+def indexOfJson (j : Json) : Except String (IndexCfg String String String) := do
+  let cfg ← cfgOfJson (← j.getObjVal? "cfg")
+  let loc ← (← j.getObjVal? "loc").getNat?
+  let g := tableFn (← pairsOfJson (← j.getObjVal? "keys")) "?k:"
+  let f := tableFn (← pairsOfJson (← j.getObjVal? "vecs")) "?v:"
+  pure { cfg := cfg, g := g, f := f, loc := loc }
+
+/-- `[ix, texts]` or `[ix, null]` (an operation that embeds nothing: index re-creation, `add_items` on a built index) -/
+def mopOfJson (j : Json) : Except String (Nat × Option (List String)) := do
+  let a ← j.getArr?
+  if h : a.size = 2 then do
+    let i ← a[0].getNat?
+    match a[1] with
+    | .null => pure (i, none)
+    | t => pure (i, some (← strsOfJson t))
+  else throw "bad op"
+
+def runMulti (ixs : List (IndexCfg String String String)) :
+    Stores String String → List (Nat × Option (List String)) → List Json → Stores String String × List Json
+  | st, [], acc => (st, acc.reverse)
+  | st, (_, none) :: rest, acc => runMulti ixs st rest (Json.null :: acc)
+  | st, (i, some ts) :: rest, acc =>
+    let r := multiCall ixs st i ts
+    runMulti ixs r.1 rest (Json.arr (r.2.map optToJson).toArray :: acc)
+
+def handleMulti (j : Json) : Except String Json := do
+  let ixs ← (← (← j.getObjVal? "indexes").getArr?).toList.mapM indexOfJson
+  let ops ← (← (← j.getObjVal? "ops").getArr?).toList.mapM mopOfJson
+  let (st, res) := runMulti ixs [] ops []
+  pure (Json.mkObj [("results", Json.arr res.toArray),
+    ("stores", Json.arr (st.map fun (l, d) => Json.arr #[Json.num (JsonNumber.fromNat l), storeToJson d]).toArray)])
+
+def mlabelOfJson (j : Json) : Except String (MLabel String) := do
+  let a ← j.getArr?
+  if h : a.size ≥ 2 then do
+    let nm ← a[0].getStr?
+    let n ← a[1].getNat?
+    match nm with
+    | "begin" =>
+      if h3 : a.size ≥ 3 then do
+        pure (.begin n (← strsOfJson a[2]))
+      else throw "begin needs texts"
+    | "finish" => pure (.finish n)
+    | _ => throw s!"bad label {nm}"
+  else throw "bad label"
+
+def mreplay (ixs : List (IndexCfg String String String)) :
+    MState String String String → List (MLabel String) → Nat → MState String String String × Option Nat
+  | s, [], _ => (s, none)
+  | s, l :: ls, k =>
+    match mstep ixs s l with
+    | some s' => mreplay ixs s' ls (k + 1)
+    | none => (s, some k)
+
+def handleMReplay (j : Json) : Except String Json := do
+  let ixs ← (← (← j.getObjVal? "indexes").getArr?).toList.mapM indexOfJson
+  let labels ← (← (← j.getObjVal? "labels").getArr?).toList.mapM mlabelOfJson
+  let (s, failed) := mreplay ixs { stores := [], pending := [], returned := [] } labels 0
+  pure (Json.mkObj [
+    ("failed_at", match failed with | some k => Json.num (JsonNumber.fromNat k) | none => .null),
+    ("returned", Json.arr (s.returned.reverse.map fun (i, _, res) =>
+      Json.arr #[Json.num (JsonNumber.fromNat i), Json.arr (res.map optToJson).toArray]).toArray),
+    ("stores", Json.arr (s.stores.map fun (l, d) => Json.arr #[Json.num (JsonNumber.fromNat l), storeToJson d]).toArray)])
+
 def handle (op : String) (j : Json) : Except String Json := do
+  if op == "multi" then return (← handleMulti j)
+  if op == "mreplay" then return (← handleMReplay j)
   let cfg ← cfgOfJson (← j.getObjVal? "cfg")
   let g := tableFn (← pairsOfJson (← j.getObjVal? "keys")) "?k:"
   let f := tableFn (← pairsOfJson (← j.getObjVal? "vecs")) "?v:"
